@@ -9,6 +9,7 @@ from .facts import AnchorLost
 
 VERIF = os.path.dirname(os.path.dirname(os.path.abspath(__file__)))
 KNOWN = os.path.join(VERIF, 'known_findings.txt')
+EVIDENCE_DIR = os.environ.get('VERIF_EVIDENCE_DIR') or os.path.join(VERIF, 'evidence')
 
 
 def load_known():
@@ -84,8 +85,7 @@ class Check:
             return fn()
         except AnchorLost as e:
             self.anchor_lost(rule, key, e)
-        except (KeyError, IndexError, AttributeError, TypeError, ValueError, AssertionError,
-                RecursionError, NotImplementedError) as e:
+        except Exception as e:      # fail closed: an unexpected shape is an anchor-lost report, never a silent pass
             import traceback
             tb = traceback.format_exc().strip().splitlines()
             self.anchor_lost(rule, key, '%s: %s @ %s' % (type(e).__name__, e, tb[-3].strip() if len(tb) >= 3 else ''))
@@ -100,7 +100,7 @@ class Check:
             self.ok(rule, key, detail='%s: %d instances (floor %d)' % (what, count, floor), nontrivial=False)
 
     def _write_replay(self, rule, key, where, detail, kind, construct):
-        d = os.path.join(VERIF, 'evidence', 'violations')
+        d = os.path.join(EVIDENCE_DIR, 'violations')
         os.makedirs(d, exist_ok=True)
         fn = os.path.join(d, '%s-%s.json' % (self.pid, re.sub(r'[^A-Za-z0-9_.-]+', '_', key)[:150]))
         with open(fn, 'w') as f:
@@ -131,8 +131,8 @@ class Check:
         ev = dict(property_id=self.pid, tier=self.tier, seed=self.seed, level=self.level,
                   coverage=cov, assumptions=self.assumptions, wall_s=round(wall, 3),
                   violations=len(self.violations))
-        os.makedirs(os.path.join(VERIF, 'evidence'), exist_ok=True)
-        with open(os.path.join(VERIF, 'evidence', '%s.json' % self.pid), 'w') as f:
+        os.makedirs(EVIDENCE_DIR, exist_ok=True)
+        with open(os.path.join(EVIDENCE_DIR, '%s.json' % self.pid), 'w') as f:
             json.dump(ev, f, indent=1, default=str)
         n_ok = sum(1 for i in self.instances if i['status'] == 'OK')
         print('SUMMARY property=%s tier=%s instances=%d ok=%d known=%d violations=%d evaluations=%d wall=%.1fs' % (
